@@ -72,6 +72,26 @@ package tokenizers
 //@     (c.Scanner != nil ==> isScanner(c.Scanner) &&
 //@         (forall i int :: 0 <= i && i < len(sc(c.Scanner).content) ==> scalar(sc(c.Scanner).content[i])))
 //
+// "a tokenizer hands every character of a configured range ... to the configured state, and disabling a range really disables it":
+// the state for a character is what the character map answers, nothing remembered from earlier calls
+//@ func (c *AbstractTokenizer) GetCharacterState
+//@   requires c != nil && mapInv(c.mp)
+//@   ensures[C17,C13] view(c.mp, symbol) == nil ==> result == nil
+//@   ensures[C17,C13] result != nil ==> result == view(c.mp, symbol)
+//@   assigns nothing
+//@   nopanic
+//@ func (c *AbstractTokenizer) SetCharacterState
+//@   requires c != nil && mapInv(c.mp) && 0 <= fromSymbol && fromSymbol <= toSymbol && fromSymbol <= 0xfffe
+//@   ensures[C17,C13] mapInv(c.mp) && c.mp == old(c.mp)
+//@   ensures[C17,C13] forall ch rune :: view(c.mp, ch) == ((fromSymbol <= ch && ch <= min(toSymbol, 0xfffe)) ? state : old(view(c.mp, ch)))
+//@   assigns c.mp.initialInterval[*], c.mp.otherIntervals
+//@   nopanic
+//@ func (c *AbstractTokenizer) ClearCharacterStates
+//@   requires c != nil && c.mp != nil
+//@   ensures[C17,C13] mapInv(c.mp) && c.mp == old(c.mp) && (forall ch rune :: view(c.mp, ch) == nil)
+//@   assigns c.mp.initialInterval, c.mp.otherIntervals
+//@   nopanic
+//
 // atheader(0, cur(..)) is the cursor at which the state that produced the returned token was entered
 //@ func (c *AbstractTokenizer) ReadNextToken
 //@   requires tokInv(c) && absOf(c) == c
